@@ -7,7 +7,7 @@
    direction are not touched, and that the result is in the box under exact comparisons.
    The first-local-minimiser clause is a statement about real numbers: it is proved on the exact-rational model (C08.v). *)
 From Coq Require Import List Bool Arith Sorted Floats.PrimFloat.
-From LBFGSB Require Generated.CauchyHead Model.NumpyOps.
+From LBFGSB Require Generated.CauchyHead Generated.CauchyScalars Model.NumpyOps.
 From LBFGSB Require Import Base.FloatOrd Model.FloatVec Model.FCauchy Proofs.DriverBox Proofs.FCauchyFloat Proofs.FCauchyProofs.
 Import ListNotations.
 
@@ -109,6 +109,32 @@ Proof.
   simpl. destruct (eqb di 0); simpl; f_equal; exact IH.
 Qed.
 
+(* ... and so are the scalar recurrences of the breakpoint loop and the tail after it: f', f'' with the eps * f''_0 safeguard
+   (Python's max keeps its first argument unless the second compares greater), delta_t_min, the break test, the clamp of
+   delta_t_min at 0 BEFORE t_old and the last update of c use it - obtained by symbolic execution of the statements of the source *)
+Module S := LBFGSB.Generated.CauchyScalars.
+Theorem C08f_loop_scalars_from_source : forall (O : oracles) (x g lb ub : vec) (theta : float) (W : list vec) (uf : bool)
+    (f2_org : float) (ibp : nat) (t_cur dt : float) (s : st),
+  let s1 := step O x g lb ub theta W uf f2_org ibp t_cur dt s in
+  let gb := nth ibp g nan in
+  let zb := sub (nth ibp (s_xcp s1) nan) (nth ibp x nan) in
+  let wb := nth ibp W [] in
+  (s_fp s1, s_fs s1, s_dtm s1) =
+  S.cauchy_scalar_step theta f2_org dt gb zb (s_fp s) (s_fs s) (o_wMc O wb (s_c s1))
+     (o_wMv O wb (vmap2 (fun pj wj => add (mul 2 pj) (mul gb wj)) (s_p s) wb)) uf.
+Proof.
+  intros. unfold s1, step, S.cauchy_scalar_step, row, ftwo, feps. cbn [s_fp s_fs s_dtm s_xcp s_c]. destruct uf; reflexivity.
+Qed.
+Theorem C08f_break_and_tail_from_source : forall (O : oracles) (x g lb ub : vec) (theta : float) (W : list vec) (uf : bool),
+  let R := fgcp_full O x g lb ub theta W uf in
+  (forall dtm dt, S.cauchy_break dtm dt = ltb dtm dt) /\
+  (r_loop R = true -> exists s : st, (r_told R, r_dtm R) = S.cauchy_tail (s_dtm s) (s_told s) /\
+                                      r_c R = vip (fun cj pj => add cj (mul (r_dtm R) pj)) (s_c s) (s_p s)).
+Proof.
+  intros. split; [reflexivity|]. unfold R, fgcp_full. destruct (sorted_pos (breakpoints x g lb ub)) as [|i0 rest]; [discriminate|]. intros _.
+  destruct (loop _ _ _ _ _ _ _ _ _ _ _ _ _ _) as [s found]. exists s. cbn [r_told r_dtm r_c]. split; reflexivity.
+Qed.
+
 (* what is NOT true in binary64 (witnesses by computation): a variable with g_i = 0 has t_i = inf > 0 and IS taken by the loop
    (it is "fixed" without being assigned); a NaN gradient component gives a NaN component of the Cauchy point *)
 Theorem C08f_zero_gradient_is_taken_by_the_loop :
@@ -117,6 +143,7 @@ Theorem C08f_zero_gradient_is_taken_by_the_loop :
 Proof. exact zero_gradient_is_fixed. Qed.
 
 Print Assumptions C08f_head_from_source.
+Print Assumptions C08f_loop_scalars_from_source.
 Print Assumptions C08f_final_move_from_source.
 Print Assumptions C08f_feasible.
 Print Assumptions C08f_sorted_breakpoints.
